@@ -505,7 +505,7 @@ def rr_repeatable_outcomes(ctx):
         fresh = outcome(questions(fresh_it)[i][2])
         n += 1
         r.check(first == second == fresh, "C10.RR", qual, f"repeatable: {label}",
-                f"{label}: first time {_short(first)}, second time {_short(second)}, in a fresh process {_short(fresh)}", repo.fn(qual))
+                f"{label}: first time {_short(first)}, second time {_short(second)}, in a fresh process {_short(fresh)}", repo.where(qual))
     r.floor("C10.RR", "repeated questions", n, 8)
 
 
